@@ -11,6 +11,9 @@ Ranges (designated by the first and the last top-level statement of the method b
 * `engine_gate` — from `decision_str = str(raw.get("decision"))` to `d = Decision(…)`: effect/allowed from the raw decision, the
   obligation gate (EXTERNAL `self.obligations.check`, awaited: `some (ok, ch)` / `none` = raised or did not unpack), the `Decision`
   (a record of its seven fields).  Inputs: `raw`, `context`.  Result: `d`.
+* `engine_metric_labels`, `engine_audit_payload` — the ONE statement `labels = {…}` / `payload = {…}` each (nested in the sink blocks):
+  what `metrics.inc` / `metrics.observe` and `logger_sink.log` are handed, as a function of `d` (the Decision record) and `env` (C11's
+  agreement clause).  Whether and how often the sinks are called stays hand-modelled.
 
 The per-run obligation `Run/C01_translated.lean` proves the generated definitions equal to the model's `buildEnv` and to the Decision
 of `finishDecision` (Model/Engine.lean); `Run/SrcEvalEngine.lean` evaluates them for the differential check `translated_vs_python` in
@@ -32,6 +35,9 @@ EXTERNALS = {"self.role_resolver.expand": "role_resolver_expand", "self.obligati
 RANGES = [
     ("engine_env", "roles", "if self.strict_types"),
     ("engine_gate", "decision_str =", "d = Decision("),
+    # single statements (last = None: the ONE assignment with this prefix, wherever it is nested): what the sinks are handed
+    ("engine_metric_labels", "labels = {", None),
+    ("engine_audit_payload", "payload = {", None),
 ]
 
 
